@@ -19,9 +19,9 @@ CHECKS = {
     "C06": ("contracts on the Mapping2D3D outputs + independent numbering/canonical-conflict/row decoder model", "4.C06",
             "For corpus structures x (own annotation | random hostile pair lists) x gap detection, the BPSEQ, per-strand text, all-dot-brackets and extended rows are decoded and compared with an independent model of numbering, canonical filtering, conflicts and class orientation; hostile residue orders (non-contiguous chains, long insertion-code runs); the command-line tool's stdout and BPSEQ file against the library's texts for the same file."),
     "C07": ("contract on BpSeq.elements + independent decomposition reference model", "4.C07",
-            "Every observed decomposition is compared with maximal stacked runs, hairpin pairs, loop closure and an interior-coverage count per unpaired nucleotide; exhaustive small scope + random; decompositions requested while the MILP back-end fails transiently are compared with the notation the object answers with afterwards; motif_extractor run in-process on BPSEQ and non-canonical dot-bracket inputs (printed strands must be slices of the printed notation); the decomposition of structures obtained from 3D and of structures read from BPSEQ text in other programs' layouts; the source re-judged after derived structures were requested."),
+            "Every observed decomposition is compared with maximal stacked runs, hairpin pairs, loop closure and an interior-coverage count per unpaired nucleotide; exhaustive small scope + random; decompositions requested while the MILP back-end fails transiently are compared with the notation the object answers with afterwards; motif_extractor run in-process on BPSEQ and non-canonical dot-bracket inputs (printed strands must be slices of the printed notation); the decomposition of structures obtained from 3D and of structures read from BPSEQ text in other programs' layouts; the source re-judged after derived structures were requested and after the explicit entry point was used; crossing stems of three pairs on letter brackets."),
     "C08": ("contract on parser.read_3d_structure vs expected atom multiset from a known abstract table", "4.C08",
-            "Generated and corpus tables are emitted as PDB and mmCIF by an independent emitter; every read (default, each model, absent model) is compared with the expected atom multiset per model; all NMR models of the corpus ensembles; the raw corpus files (gzip, MODRES, entity categories) against an independently read table, with and without nucleic_acid_only; label-only mmCIF, six-digit serials, CRLF / stripped / tabbed texts, number spellings, pairs 0.5004-0.5009 A apart."),
+            "Generated and corpus tables are emitted as PDB and mmCIF by an independent emitter; every read (default, each model, absent model) is compared with the expected atom multiset per model; all NMR models of the corpus ensembles; the raw corpus files (gzip, MODRES, entity categories) against an independently read table, with and without nucleic_acid_only; label-only mmCIF, six-digit serials, CRLF / stripped / tabbed texts, number spellings, pairs 0.5004-0.5009 A apart, an 80 005-atom table, the same path rewritten with content of the same size."),
     "C09": ("round-trip twins through parser_v2 + 80-column grammar and record automaton on every write_pdb result", "4.C09",
             "Four write/read paths per table compared field by field with the abstract table; every written PDB document is parsed by an independent column grammar and a record-sequence automaton; a third of the round trips use the other documented input/output object kinds (StringIO, text/binary handles, paths)."),
     "C10": ("contract on fit_to_pdb + independent feasibility test + bijection check + write/read back", "4.C10",
@@ -31,7 +31,7 @@ CHECKS = {
     "C12": ("recorded call histories on object pools checked step by step against a fresh-object model", "4.C12",
             "History monitor: after each public call on any pool object, all objects must still print/pair as at creation and the answer must equal a fresh copy's answer; all 2-step orders on hostile structures + random histories; a homologous sibling queried first; molecules of > 1000 nucleotides / > 100 stems."),
     "C13": ("fault/configuration injection at the PuLP boundary; complete matrix enumeration", "4.C13",
-            "All 13 cells of {HiGHS-stub,CBC,none} x {ok,raise,4 bad statuses} x both entry points are enumerated for every knotted input; inputs are sampled. A missing cell makes the run inconclusive. Every knotted matching on up to 8 positions through both fallback routes; 11-12 bracket levels under every cell; a derived structure requested first. The notation asked for through the 3D mapping under every cell, and the CLI's stdout under three log levels in fresh interpreters."),
+            "All 13 cells of {HiGHS-stub,CBC,none} x {ok,raise,4 bad statuses} x both entry points are enumerated for every knotted input; inputs are sampled. A missing cell makes the run inconclusive. Every knotted matching on up to 8 positions through both fallback routes; 11-12 bracket levels under every cell; a derived structure requested first; hundreds of regions open at once. The notation asked for through the 3D mapping under every cell, and the CLI's stdout under three log levels in fresh interpreters."),
     "C14": ("recorded outputs of fresh interpreters under different hash seeds, offline byte comparison", "4.C14",
             "Every tool/library output for each (tool, options, input) triple is recorded under 3 (quick) / 6 (thorough) hash seeds plus an in-process repetition and compared byte for byte; several related inputs handled in a row by one interpreter must print what a fresh interpreter prints for each; external pair lists with same-rank conflicts through the adapter; an input whose base type cannot be decided from its atoms inside a batch; format conversion in a row; FR3D listings with repeated rows; a nearly identical input right after the original; the witness is the first differing line."),
     "C15": ("differential twins: 2 reader generations x 2 formats compared as maps with each other and the abstract table", "4.C15",
